@@ -551,7 +551,7 @@ package graph
 //@   ensures result == (pq[i].distance < pq[j].distance)
 
 //@ func (distQueue).Swap
-//@   requires 0 <= i && i < len(pq) && 0 <= j && j < len(pq) && pq[i] != nil && pq[j] != nil
+//@   requires 0 <= i && i < len(pq) && 0 <= j && j < len(pq) && pq[i] != nil && pq[j] != nil && (i == j || pq[i] != pq[j])
 //@   ensures  pq[i] == old(pq[j]) && pq[j] == old(pq[i]) && pq[i].index == i && pq[j].index == j
 //@   ensures  forall(k, int, imp(0 <= k && k < len(pq) && k != i && k != j, pq[k] == old(pq[k])))
 //@   ensures  forall(x, *distQueueItem, imp(x != old(pq[i]) && x != old(pq[j]), x.index == old(x.index)))
